@@ -44,6 +44,24 @@ def queryOK (q q' : Str) : Bool :=
   ((a.map (·.1)) ++ (b.map (·.1))).all fun k => decide (valuesOf k b = valuesOf k a)
 
 /-! ## request headers -/
+/-- The hop-by-hop header names, as the SPECIFICATION fixes them (RFC 7230 §6.1 `Connection`; RFC 2616 §13.5.1
+    `Keep-Alive`, `Proxy-Authenticate`, `Proxy-Authorization`, `TE`, `Trailer`, `Transfer-Encoding`, `Upgrade`; and
+    the de-facto `Proxy-Connection`). The judges use this list, not the code's: `KG.Props.C04.c04_hop_list` proves
+    the regenerated `hopHeaders` of reverseproxy.go names exactly these. -/
+def specHop : List Str := [
+  [67, 111, 110, 110, 101, 99, 116, 105, 111, 110],                                              -- Connection
+  [80, 114, 111, 120, 121, 45, 67, 111, 110, 110, 101, 99, 116, 105, 111, 110],                  -- Proxy-Connection
+  [75, 101, 101, 112, 45, 65, 108, 105, 118, 101],                                               -- Keep-Alive
+  [80, 114, 111, 120, 121, 45, 65, 117, 116, 104, 101, 110, 116, 105, 99, 97, 116, 101],         -- Proxy-Authenticate
+  [80, 114, 111, 120, 121, 45, 65, 117, 116, 104, 111, 114, 105, 122, 97, 116, 105, 111, 110],   -- Proxy-Authorization
+  [84, 101],                                                                                     -- Te
+  [84, 114, 97, 105, 108, 101, 114],                                                             -- Trailer
+  [84, 114, 97, 110, 115, 102, 101, 114, 45, 69, 110, 99, 111, 100, 105, 110, 103],              -- Transfer-Encoding
+  [85, 112, 103, 114, 97, 100, 101]]                                                             -- Upgrade
+
+#guard specHop == ["Connection", "Proxy-Connection", "Keep-Alive", "Proxy-Authenticate", "Proxy-Authorization", "Te",
+                   "Trailer", "Transfer-Encoding", "Upgrade"].map Str.ofString
+
 /-- What the upstream must see under header name `k`, given the header map `h0` the proxy handler received
     (non-upgrade requests):
     * `X-Forwarded-For`: the prior values (unless the client listed the name in `Connection`) folded with ", " and the
@@ -62,7 +80,7 @@ def reqHdrExpected (h0 : Hdr) (ip : Option Str) (k : Str) : List Str :=
       | [] => [ip]
       | p :: ps => [joinWith kCommaSpace (p :: ps) ++ kCommaSpace ++ ip]
   else if k = kTe ∧ headerValuesContainsToken (h0.values kTe) kTrailers = true then [kTrailers]
-  else if k ∈ connectionTokens h0 ∨ k ∈ Gen.C04.hopHeaders then []
+  else if k ∈ connectionTokens h0 ∨ k ∈ specHop then []
   else if k = kUserAgent ∧ h0.get? kUserAgent = none then [[]]
   else h0.values k
 
@@ -119,7 +137,7 @@ def reqVerdict (r : Req) (seen : UpReq) : ReqVerdict :=
     `Connection: close` under the CloseConnectionWhenIdle gate), then the upstream's values in order unless `k` is
     hop-by-hop or listed in the upstream's `Connection`. -/
 def respHdrExpected (pre up : Hdr) (k : Str) : List Str :=
-  pre.values k ++ (if k ∈ connectionTokens up ∨ k ∈ Gen.C04.hopHeaders then [] else up.values k)
+  pre.values k ++ (if k ∈ connectionTokens up ∨ k ∈ specHop then [] else up.values k)
 
 def dropClose (k : Str) (vs : List Str) : List Str := if k = kConnection then vs.filter (fun v => decide (v ≠ kClose)) else vs
 
@@ -170,13 +188,33 @@ def wellFormed (o : TermObs) : Bool :=
 def matchesRow (a : Answer) (o : TermObs) : Bool :=
   decide (o.httpCode = a.httpCode) && decide (o.retryAfter = a.retryAfter) && decide (o.body.reason = a.body.reason)
 
+/-- The property's own demand on Retry-After, independent of the code's constants: a 503 (cluster not proxied, no
+    ready endpoint) and a flow-control 429 (other than for the `events` resource and the DenyAllRequests breaker) carry
+    a Retry-After of at least one second; the other terminated answers carry none. -/
+def retryAfterDemanded (o : TermObs) (flowControlled : Bool) (resource : Str) : Bool :=
+  if o.httpCode = 503 ∨ (o.httpCode = 429 ∧ flowControlled = true ∧ resource ≠ [101, 118, 101, 110, 116, 115]) then
+    (match o.retryAfter with
+     | some n => decide (1 ≤ n)
+     | none => false)
+  else o.retryAfter.isNone
+
 /-- the observation a model answer stands for -/
 def obsOfAnswer (a : Answer) : TermObs :=
   { httpCode := a.httpCode, retryAfter := a.retryAfter, isStatus := true, body := a.body, upstreamRequests := 0, upstreamBytes := 0 }
 
+/-- the dispatcher's rows of the decision table -/
+def tableDispatch (s : Scenario) : Outcome :=
+  if !s.policyMatches then .terminated ⟨500, none, ⟨kStatus, kV1, kFailure, kInternalError, 500⟩⟩
+  else if !s.acquireOK then
+    .terminated ⟨429, if s.resource = Gen.C04.rateLimitExemptResource then none else some Gen.C04.retryAfter,
+                 ⟨kStatus, kV1, kFailure, kTooManyRequests, 429⟩⟩
+  else if !s.popOK then .terminated ⟨503, some Gen.C04.unavailableRetryAfter, ⟨kStatus, kV1, kFailure, kServiceUnavailable, 503⟩⟩
+  else .forward
+
 /-- The decision table of DESIGN.md §5 C04 in closed form: the first condition that holds decides. -/
 def table (s : Scenario) : Outcome :=
-  if s.hostIsIP then
+  if !s.labelsUTF8 then .aborted
+  else if s.hostIsIP then
     (if !s.authOK then .terminated ⟨401, none, ⟨kStatus, kV1, kFailure, kUnauthorized, 401⟩⟩
      else match s.imp with
        | .malformed => .plainError 500
@@ -188,12 +226,6 @@ def table (s : Scenario) : Outcome :=
   else match s.imp with
     | .malformed => .plainError 500
     | .refused => .terminated ⟨403, none, ⟨kStatus, kV1, kFailure, kForbidden, 403⟩⟩
-    | _ =>
-      if !s.policyMatches then .terminated ⟨500, none, ⟨kStatus, kV1, kFailure, kInternalError, 500⟩⟩
-      else if !s.acquireOK then
-        .terminated ⟨429, if s.resource = Gen.C04.rateLimitExemptResource then none else some Gen.C04.retryAfter,
-                     ⟨kStatus, kV1, kFailure, kTooManyRequests, 429⟩⟩
-      else if !s.popOK then .terminated ⟨503, some Gen.C04.unavailableRetryAfter, ⟨kStatus, kV1, kFailure, kServiceUnavailable, 503⟩⟩
-      else .forward
+    | _ => tableDispatch s
 
 end KG.Spec.Forward
